@@ -58,6 +58,8 @@ type C16Case struct {
 	// the chain's account bech32, valoper / cosmos = well-formed bech32 with another prefix, upper = upper-cased, empty,
 	// garbage
 	ToSpelling string `json:"to_spelling,omitempty"`
+	// TogglePair (query test): the registered pair of uxmpl is switched off before the queries (it keeps its ERC20 address)
+	TogglePair bool   `json:"toggle_pair,omitempty"`
 	Signer     string `json:"signer,omitempty"` // "" (plain delegator) | vesting (clawback vesting account with locked coins) | operator (validator operator)
 	Create     int    `json:"create,omitempty"` // createValidator parameter variant
 }
@@ -84,6 +86,12 @@ func c16CreateArgs(c C16Case) c16Create {
 		cv.maxChange = d("0.25") // above max rate
 	case 5:
 		cv.rate = d("0") // below a minimum commission, if any
+	case 6:
+		cv.minSelf = big.NewInt(0) // not a positive integer
+	case 7:
+		cv.maxRate = d("1.01") // above 100 %
+	case 8:
+		cv.desc.Details = strings.Repeat("d", 300) // longer than the description limit
 	}
 	return cv
 }
@@ -131,7 +139,8 @@ func genC16(t *rapid.T) C16Case {
 		c.ToSpelling = rapid.SampledFrom([]string{"", "", "valoper", "cosmos", "upper", "empty", "garbage"}).Draw(t, "to-spelling")
 	}
 	c.Signer = rapid.SampledFrom([]string{"", "", "vesting", "vesting", "operator"}).Draw(t, "signer")
-	c.Create = rapid.SampledFrom([]int{0, 0, 0, 1, 2, 3, 4, 5}).Draw(t, "create")
+	c.Create = rapid.SampledFrom([]int{0, 0, 0, 1, 2, 3, 4, 5, 6, 6, 7, 8}).Draw(t, "create")
+	c.TogglePair = rapid.IntRange(0, 2).Draw(t, "toggle-pair") == 0
 	if rapid.IntRange(0, 5).Draw(t, "slashed-destination-scenario") == 0 {
 		// (query test) a redelegation whose destination validator is slashed while the entry is pending
 		v := rapid.IntRange(0, 1).Draw(t, "sd-val")
@@ -139,6 +148,12 @@ func genC16(t *rapid.T) C16Case {
 		if rapid.Bool().Draw(t, "sd-second") {
 			c.Prelude = append(c.Prelude, C16Pre{K: "undelegate", Val: v + 1, Amt: "1000"})
 		}
+	}
+	if rapid.IntRange(0, 5).Draw(t, "create-validator-scenario") == 0 {
+		// a plain, funded account becomes a validator with otherwise valid arguments and one of the argument variants
+		c.Method, c.Signer, c.Unknown = "createValidator", "", false
+		c.AmtMode, c.Amt = "abs", rapid.SampledFrom([]string{"1000", "500000"}).Draw(t, "cv-amt")
+		c.Create = rapid.IntRange(0, 8).Draw(t, "cv-variant")
 	}
 	if rapid.IntRange(0, 5).Draw(t, "slashed-unbonding-scenario") == 0 {
 		// (query test) an unbonding entry that is slashed while pending: its balance falls below its initial balance
@@ -417,6 +432,13 @@ func runC16Query(st *ev.Stats, c C16Case) string {
 		}
 		n.DeliverTx(txb.CosmosTx(pxSigner, txb.Cosmos{Msgs: []sdk.Msg{msg}, Gas: 1500000, Fee: coinsOfGas(1500000, gwei10), ChainID: chain.ChainID, AccNum: num, Seq: seq}))
 	}
+	if c.TogglePair {
+		cctx, write := n.Ctx().CacheContext()
+		if _, err := app.Erc20Keeper.ToggleConversion(cctx, "uxmpl"); err == nil {
+			write()
+			st.Class("pair-switched-off")
+		}
+	}
 	ctx := n.Ctx()
 	call := func(name, method string, args ...interface{}) ([]interface{}, error) {
 		to := pabi.Addr(name)
@@ -645,7 +667,7 @@ func init() {
 func TestC16_TxEquivalence(t *testing.T) {
 	st := ev.New("C16", "TestC16_TxEquivalence", "method x arguments (existing / unknown validator, amount 0, 1, balance±1, delegation±1, huge, creation height ±1, withdraw targets) x state reached by 0-3 native prelude txs; the owner calls the precompile on one fork and signs the native message on another; non-trivial = argument tuples for which the native message fails")
 	runCorpus(t, st)
-	runRapid(t, st, 200, 20000, func(rt *rapid.T) {
+	runRapid(t, st, 300, 20000, func(rt *rapid.T) {
 		if msg := runC16(st, genC16(rt)); msg != "" {
 			rt.Fatalf("%s", msg)
 		}
